@@ -353,3 +353,38 @@ def thm_align():
 for _t in REG.theorems:
     if _t.prop == P:
         _t.no_concrete_replay = True
+
+
+# ------------------------------------------------------------------ the worker argument stream from find() instead of files=
+class _ListedFileSet(FileSet):
+    """find() is a given (C01): it returns the listed files and records how it was asked"""
+
+    def find(self, *args, **kwargs):
+        self.find_calls.append((args, tuple(sorted(kwargs.items()))))
+        return iter(self.listed)
+
+
+_ListedFileSet.find.__pyvc_thm__ = True
+
+
+@theorem(P, "map-via-find")
+def thm_map_find():
+    for k in (0, 1, 4):
+        files = _files(k)
+        fs = _ListedFileSet(path="/d/{year}{month}{day}{hour}.nc", name="verif", worker_type="thread")
+        fs.handler = Handler(())
+        fs.listed, fs.find_calls = files, []
+        s, e = datetime(2020, 1, 1), datetime(2020, 1, 2)
+        res = fs.map(lambda info: ("r", info.path), start=s, end=e, max_workers=2, worker_type="thread")
+        ensures(res == [("r", f.path) for f in files], id="map(start, end): one result per file that find() yields, in find() order [%d files]" % k)
+        ensures(len(fs.find_calls) == 1, id="find() is asked once [%d files]" % k)
+        lazy = list(fs.imap(lambda info: ("r", info.path), start=s, end=e, max_workers=2, worker_type="thread"))
+        ensures(lazy == res, id="imap(start, end) yields the same sequence [%d files]" % k)
+        got = fs.collect(s, e) if k else None
+        if k:
+            ensures(got == [("content", f.path, ()) for f in files], id="collect(start, end) returns the contents in find() order [%d files]" % k)
+
+
+for _t in REG.theorems:
+    if _t.prop == P:
+        _t.no_concrete_replay = True
